@@ -136,6 +136,30 @@ func leaderCovered(h *H, fn *ssa.Function, tn string, in ssa.Instruction) (bool,
 	if covered {
 		return true, reason
 	}
+	// (1b) call of an extracted wrapper whose every possibly-nil result is itself covered
+	ir.Instrs(fn, func(x ssa.Instruction) {
+		if covered {
+			return
+		}
+		call, ok := x.(*ssa.Call)
+		if !ok || x == in {
+			return
+		}
+		g := call.Call.StaticCallee()
+		if g == nil || g.Blocks == nil || !ir.InRepo(g) || isLeaderCheckFn(h, g) || !ir.HasErrResult(call) {
+			return
+		}
+		if sd, _, _ := ir.SuccessDominated(call, in); !sd {
+			return
+		}
+		if ok, why := ensuresLeader(h, g, tn, 0); ok {
+			covered = true
+			reason = "after " + ir.FuncName(g) + " succeeded, which " + why
+		}
+	})
+	if covered {
+		return true, reason
+	}
 	// (2) direct comparison guard
 	for _, g := range ir.CmpGuards(in) {
 		for _, cmp := range []ir.Cmp{g, g.Flip()} {
@@ -152,6 +176,48 @@ func leaderCovered(h *H, fn *ssa.Function, tn string, in ssa.Instruction) (bool,
 		reason = "no status==LEADER check dominates it"
 	}
 	return false, reason
+}
+
+// ensuresLeader: g reports success (nil error) only when status==LEADER was established
+// under the controller lock: every return whose error may be nil either returns the
+// leader check's own result or is covered by a check inside g.
+func ensuresLeader(h *H, g *ssa.Function, tn string, depth int) (bool, string) {
+	if depth > 2 {
+		return false, ""
+	}
+	held := ir.HeldAt(g)
+	n := 0
+	okAll := true
+	ir.Instrs(g, func(in ssa.Instruction) {
+		ret, isRet := in.(*ssa.Return)
+		if !isRet || in.Block() == g.Recover || !okAll {
+			return
+		}
+		vals := ir.ReturnValues(ret)
+		if len(vals) == 0 {
+			okAll = false
+			return
+		}
+		ev := ir.Canon(vals[len(vals)-1])
+		if !valueMayBeNilAt(ev, ret) {
+			return
+		}
+		n++
+		if c, isCall := ev.(*ssa.Call); isCall && isLeaderCheckFn(h, c.Call.StaticCallee()) {
+			ld := ir.Canon(c.Call.Args[0])
+			if li, isI := ld.(ssa.Instruction); isI && ir.LoadsField(ld, "server", tn, "status") && len(held[li]) > 0 {
+				return
+			}
+		}
+		if cov, _ := leaderCovered(h, g, tn, ret); cov {
+			return
+		}
+		okAll = false
+	})
+	if n == 0 || !okAll {
+		return false, ""
+	}
+	return true, "only returns nil after the LEADER check under the controller lock"
 }
 
 type unguardedInfo struct {
